@@ -176,6 +176,14 @@ func wrongArity(rt *rapid.T, orig gen.Expr) (gen.Expr, string) {
 		}
 	}
 	n := rapid.SampledFrom(cands).Draw(rt, "badarity")
+	if right >= 0 && rapid.IntRange(0, 7).Draw(rt, "hugearity") == 0 {
+		// argument counts that equal the right one modulo a power of two
+		wraps := []int{256, 512}
+		if env.Thorough() {
+			wraps = append(wraps, 65536)
+		}
+		n = rapid.SampledFrom(wraps).Draw(rt, "aritywrap") + right
+	}
 	c := &gen.Call{Func: name}
 	for i := 0; i < n; i++ {
 		if i == 0 {
@@ -339,6 +347,25 @@ func TestC13Rules(t *testing.T) {
 		cOK := ruleCase{strCase: mkStrCase(base), Params: params, Expect: "compile"}
 		if msg := checkRules(cOK); msg != "" {
 			st.Violation(rt, "C13", "rules", cOK, "%+q: %s", base, msg)
+		}
+		if rapid.IntRange(0, 19).Draw(rt, "manyargs") == 0 {
+			// strcat takes any number of arguments >= 1
+			sizes := []int{255, 256, 257, 1000}
+			if env.Thorough() {
+				sizes = append(sizes, 65536)
+			}
+			nargs := rapid.SampledFrom(sizes).Draw(rt, "strcatargs")
+			args := make([]string, nargs)
+			for i := range args {
+				args[i] = fmt.Sprintf("c%d", i%7)
+			}
+			src := "T | extend s = strcat(" + strings.Join(args, ", ") + ") | take 1"
+			st.Eval()
+			st.Class("rule-abiding-many-arguments")
+			cMany := ruleCase{strCase: mkStrCase(src), Expect: "compile"}
+			if msg := checkRules(cMany); msg != "" {
+				st.Violation(rt, "C13", "rules", cMany, "strcat with %d arguments: %s", nargs, msg)
+			}
 		}
 		kind := rapid.SampledFrom(plantKinds).Draw(rt, "plant")
 		desc, placement, ok := plant(rt, g, prog, kind)
